@@ -9,6 +9,7 @@ package dns
 
 import (
 	"fmt"
+	"reflect"
 	"strings"
 )
 
@@ -143,3 +144,141 @@ func vNow() int64 { return int64(vIn("now")) }
 
 // vConcretize asks the engine to fork over all feasible values of x.
 func vConcretize(x int) int { return x }
+
+// ---------- object graphs (engine: heap walk over boxed values; native: reflect) ----------
+
+var vSnaps []string
+
+// vSnapshot records the deep value of x (following pointers); vSame compares against it.
+func vSnapshot(x any) int {
+	vSnaps = append(vSnaps, vDump(x))
+	return len(vSnaps) - 1
+}
+
+func vSame(x any, h int) bool { return vDump(x) == vSnaps[h] }
+
+// vDeepEqual: structural equality following pointers; nil and empty slices are equal.
+func vDeepEqual(a, b any) bool { return vDump(a) == vDump(b) }
+
+func vDump(x any) string {
+	var sb strings.Builder
+	vDumpValue(&sb, reflect.ValueOf(x), map[uintptr]bool{})
+	return sb.String()
+}
+
+func vDumpValue(sb *strings.Builder, v reflect.Value, seen map[uintptr]bool) {
+	if !v.IsValid() {
+		sb.WriteString("nil;")
+		return
+	}
+	switch v.Kind() {
+	case reflect.Pointer:
+		if v.IsNil() {
+			sb.WriteString("nil;")
+			return
+		}
+		if seen[v.Pointer()] {
+			sb.WriteString("cycle;")
+			return
+		}
+		seen[v.Pointer()] = true
+		sb.WriteString("&")
+		vDumpValue(sb, v.Elem(), seen)
+		delete(seen, v.Pointer())
+	case reflect.Interface:
+		if v.IsNil() {
+			sb.WriteString("nil;")
+			return
+		}
+		fmt.Fprintf(sb, "(%s)", v.Elem().Type())
+		vDumpValue(sb, v.Elem(), seen)
+	case reflect.Struct:
+		sb.WriteString("{")
+		for i := 0; i < v.NumField(); i++ {
+			if v.Type().Field(i).Type.Kind() == reflect.Func {
+				continue
+			}
+			vDumpValue(sb, v.Field(i), seen)
+		}
+		sb.WriteString("}")
+	case reflect.Slice, reflect.Array:
+		fmt.Fprintf(sb, "[%d:", v.Len())
+		for i := 0; i < v.Len(); i++ {
+			vDumpValue(sb, v.Index(i), seen)
+		}
+		sb.WriteString("]")
+	case reflect.String:
+		fmt.Fprintf(sb, "%q;", v.String())
+	case reflect.Map:
+		fmt.Fprintf(sb, "map%d;", v.Len())
+	case reflect.Bool:
+		fmt.Fprintf(sb, "%v;", v.Bool())
+	case reflect.Int, reflect.Int8, reflect.Int16, reflect.Int32, reflect.Int64:
+		fmt.Fprintf(sb, "%d;", v.Int())
+	case reflect.Uint, reflect.Uint8, reflect.Uint16, reflect.Uint32, reflect.Uint64, reflect.Uintptr:
+		fmt.Fprintf(sb, "%d;", v.Uint())
+	default:
+		sb.WriteString("?;")
+	}
+}
+
+type vRange_ struct{ lo, hi uintptr }
+
+func vCollect(v reflect.Value, out *[]vRange_, seen map[uintptr]bool) {
+	if !v.IsValid() {
+		return
+	}
+	switch v.Kind() {
+	case reflect.Pointer:
+		if v.IsNil() || seen[v.Pointer()] {
+			return
+		}
+		seen[v.Pointer()] = true
+		if sz := v.Elem().Type().Size(); sz > 0 {
+			*out = append(*out, vRange_{v.Pointer(), v.Pointer() + sz})
+		}
+		vCollect(v.Elem(), out, seen)
+	case reflect.Interface:
+		if !v.IsNil() {
+			vCollect(v.Elem(), out, seen)
+		}
+	case reflect.Struct:
+		for i := 0; i < v.NumField(); i++ {
+			vCollect(v.Field(i), out, seen)
+		}
+	case reflect.Slice:
+		if v.Len() == 0 {
+			return
+		}
+		esz := v.Type().Elem().Size()
+		if esz > 0 {
+			*out = append(*out, vRange_{v.Pointer(), v.Pointer() + esz*uintptr(v.Len())})
+		}
+		for i := 0; i < v.Len(); i++ {
+			vCollect(v.Index(i), out, seen)
+		}
+	case reflect.Array:
+		for i := 0; i < v.Len(); i++ {
+			vCollect(v.Index(i), out, seen)
+		}
+	case reflect.Map:
+		if !v.IsNil() {
+			*out = append(*out, vRange_{v.Pointer(), v.Pointer() + 1})
+		}
+	}
+}
+
+// vAliased: do the object graphs of a and b share any mutable memory?
+func vAliased(a, b any) bool {
+	var ra, rb []vRange_
+	vCollect(reflect.ValueOf(a), &ra, map[uintptr]bool{})
+	vCollect(reflect.ValueOf(b), &rb, map[uintptr]bool{})
+	for _, x := range ra {
+		for _, y := range rb {
+			if x.lo < y.hi && y.lo < x.hi {
+				return true
+			}
+		}
+	}
+	return false
+}
